@@ -57,11 +57,15 @@ def check(tier):
               vlib.model_check(work, "Once", "Once_bug.cfg", expect_violation=True)]
         if tier == "thorough":
             mc.append(vlib.model_check(work, "Once", "Once_G4.cfg", timeout=3000))
+        if os.environ.get("VERIF_TIMING"):
+            print("timing: model checking done at %.0fs" % (time.time() - t0))
         drv, sites, msg = special_c03.build_instrumented(work, "conc", None, with_exit=True)
         ids = once_ids(sites)
         global WATCH
         WATCH = sorted(ids.values()) if ids else []
         race_drv = vlib.build_driver(work, tags="verif", name="edrv_race", extra=["-race", "-overlay", os.path.join(work.dir, "instr-conc", "overlay.json")])
+        if os.environ.get("VERIF_TIMING"):
+            print("timing: drivers built at %.0fs" % (time.time() - t0))
         rng = random.Random(vlib.seed() * 65537 + 18)
         nscn = 10 if tier == "quick" else 80
         scns = [suites.conc_scenario(i + 1, rng, rng.choice([2, 3, 4, 8, 16])) for i in range(nscn)]
@@ -72,8 +76,12 @@ def check(tier):
         samples = []
         with cf.ThreadPoolExecutor(max_workers=vlib.NCPU) as ex:
             jobs = []
-            for scn in scns:
-                gmp = rng.choice([1, 2, 4, 16])
+            gmps = [rng.choice([1, 2, 4, 16]) for _ in scns]
+            lock = __import__("threading").Lock()
+            once_n = [0]
+
+            def do_scn(k):
+                scn, gmp = scns[k], gmps[k]
                 rc, out, tj, cj = run_scenario(drv, scn, work, "i", gmp)
                 if rc != 0:
                     raise Infra("scenario driver failed (rc=%d):\n%s" % (rc, out[-2000:]))
@@ -82,11 +90,12 @@ def check(tier):
                     idf = os.path.join(work.dir, "ids-%d.json" % scn["id"])
                     open(idf, "w").write(json.dumps(ids) + "\n")
                     if os.path.getsize(cj) > 0:
-                        once_logs += 1
+                        once_n[0] += 1
                         jobs.append(("once", scn, ex.submit(vlib.tlc, work, "TraceOnce", "TraceOnce.cfg", 1, 600,
                                                             {"VERIF_TRACE": cj, "VERIF_ONCE_IDS": idf}, "2g")))
                 # seeded cooperative schedules: one processor, yields at pseudo-randomly chosen function entries of the library
-                for c in range(1, (3 if tier == "quick" else 9)):
+                warm = any(st["op"].startswith("Point.") and st["op"] != "Point.SetBytes" and st["op"] != "Point.SetExtendedCoordinates" for st in scn["prelude"])
+                for c in range(1, ((2 if warm else 4) if tier == "quick" else 9)):
                     rc, out, tj2, _ = run_scenario(drv, scn, work, "c%d" % c, 1, chaos=vlib.seed() * 1000 + scn["id"] * 16 + c)
                     if rc != 0:
                         raise Infra("scenario driver failed under chaos scheduling (rc=%d):\n%s" % (rc, out[-2000:]))
@@ -101,6 +110,15 @@ def check(tier):
                         raise Infra("race-build driver failed (rc=%d):\n%s" % (rc, out[-2000:]))
                 if len(samples) < 2:
                     samples.append({"id": scn["id"], "goroutines": [[s["op"] for s in g["steps"]] for g in scn["goroutines"]]})
+                return None
+            # the scenarios are executed a few at a time (their processes compete for the processors, which only adds
+            # schedule diversity); the validation jobs they submit run in the pool `ex`
+            with cf.ThreadPoolExecutor(max_workers=4) as ex2:
+                for r in ex2.map(do_scn, range(len(scns))):
+                    pass
+            once_logs = once_n[0]
+            if os.environ.get("VERIF_TIMING"):
+                print("timing: scenarios executed at %.0fs" % (time.time() - t0))
             for kind, scn, fu in jobs:
                 if kind == "api":
                     r = fu.result()
@@ -171,6 +189,8 @@ def replay(path):
     data = json.load(open(path))
     work = vlib.Work(PROP + "-replay")
     try:
+        if os.environ.get("VERIF_TIMING"):
+            print("timing: model checking done at %.0fs" % (time.time() - t0))
         drv, sites, msg = special_c03.build_instrumented(work, "conc", None, with_exit=True)
         race_drv = vlib.build_driver(work, tags="verif", name="edrv_race", extra=["-race", "-overlay", os.path.join(work.dir, "instr-conc", "overlay.json")])
         scn = data["scenario"]
